@@ -1,5 +1,5 @@
 #!/venv/bin/python
-"""adopt_seed.py <src seed dir> <id> <property> "<what it needs to manifest>" [--extra-props C09,C02]
+"""adopt_seed.py <src seed dir> <id> <property> "<what it needs to manifest>" [--extra-props C09,C02] [--history "<why it was missed, what catches it now>"]
 
 Verifies an independently written breaking change (tests still pass, demo fails
 with it and passes without) in a scratch worktree, runs the property's quick
@@ -37,6 +37,10 @@ meta = {
     "checks": {k: {"caught": v["exit"] == 1, "violations": v["violations"], "first_messages": v["msgs"][:2], "wall_s": v["wall"]}
                for k, v in res.get("checks", {}).items()},
 }
+if "--history" in sys.argv:
+    # re-adoption after a check was strengthened: the change was missed at first contact
+    meta["initially_missed"] = True
+    meta["history"] = sys.argv[sys.argv.index("--history") + 1]
 json.dump(meta, open(os.path.join(dst, "meta.json"), "w"), indent=1)
 ok = (res.get("demo_on_change") == 1 and res.get("demo_on_clean") == 0 and "165 passed" in (res.get("tests") or ""))
 print(sid, "confirmed" if ok else "NOT CONFIRMED", {k: v["caught"] for k, v in meta["checks"].items()})
